@@ -297,6 +297,29 @@ def run(c):
                                input=dict(ctx, run=k + 1, rules="harness/cmd/c14 engRules", target="harness/cmd/c14 engTarget"),
                                expected=exp, observed=got)
                 c.coverage["engine_runs"] = c.coverage.get("engine_runs", 0) + len(eo.get("runs") or [])
+            # ---- engine-level matrix: every relation filter x every probe of a generated target, several source orders
+            mx = o.get("matrix")
+            if mx is not None:
+                if mx.get("load_err"):
+                    c.obligation("engine-matrix-load:" + fname, False, mx["load_err"])
+                for p in mx.get("panics") or []:
+                    c.fail("oracle", "Run fails on the engine-level matrix target", input=dict(ctx, run=p), observed=p, expected="reports")
+                for s_ in mx.get("stray") or []:
+                    c.obligation("engine-matrix-reports-belong-to-probes:" + fname, False, s_)
+                c.evaluations += mx.get("probes", 0)
+                for d in (mx.get("diffs") or [])[:6]:
+                    c.fail("oracle", "engine filter %s on a probe of type %s: outcome differs from go/types inside the run's own type-check "
+                           "(nested aliases, same-printing distinct types, one engine over several type-checks / source orders)"
+                           % (d["filter"], d["type"]),
+                           input=dict(ctx, filter=d["filter"], probe_expr=d["expr"], probe_type=d["type"], function=d["scope"],
+                                      declarations=d.get("decls", ""), run=d["run"], function_order=d["order"],
+                                      target="harness/cmd/c14 emMatrix"),
+                           expected=d["expected"], observed=d["observed"])
+                c.coverage["engine_matrix_rules"] = mx.get("rules", 0)
+                c.coverage["engine_matrix_probes"] = c.coverage.get("engine_matrix_probes", 0) + mx.get("probes", 0)
+                c.coverage["engine_matrix_expected_reports"] = c.coverage.get("engine_matrix_expected_reports", 0) + mx.get("positive", 0)
+                c.coverage["engine_matrix_same_printing_probes"] = mx.get("same_printing_probes", 0)
+                c.coverage["engine_matrix_nested_alias_probes"] = mx.get("nested_alias_probes", 0)
             c.coverage["pool_size"] = n
             c.coverage["interfaces_in_pool"] = len(ifs)
             c.coverage["identical_pairs_per_universe"] = sum(r.count("1") for r in o["g1"])
